@@ -331,8 +331,11 @@ func allChecksRaw() []*Check {
 		},
 		{
 			ID:    "C11",
-			Files: files([]string{"gtree/common.go", "gtree/progtree.go"}, filesVFS, []string{"gtree/c11.go", "gtree/c11_native.go"}),
+			Files: files(filesProg, filesVFS, []string{"gtree/c06.go", "gtree/c08.go", "gtree/c09.go", "gtree/c10.go", "gtree/c10_native.go", "gtree/c11.go", "gtree/c11_native.go"}),
 			Quick: []Job{
+				// the data-race clause on C10's operation family (text, JSON, dry-run, walk, mkdir, verify on documents with
+				// blank / malformed rows and # roots): the happens-before detector rides on the same harness
+				gjf("C11.race.ops.n2", "VerifC10", 2, "C10.noleak", "C10.end"),
 				gjf("C11.fail.n3", "VerifC11Fail", 3, "C11.returns/parse", "C11.returns/validate", "C11.returns/write", "C11.returns/callback", "C11.returns/fs", "C11.returns/reader", "C11.reported/parse", "C11.noleak/parse", "C11.noleak/write", "C11.noleak/fs"),
 				gjf("C11.cancel.n1", "VerifC11Cancel", 1, "C11.cancel.returns", "C11.noleak/cancel"),
 				gjf("C11.cancel.n2", "VerifC11Cancel", 2, "C11.cancel.returns", "C11.ctxerr.only", "C11.ctxerr/precancelled", "C11.cancel.never", "C11.noleak/cancel"),
@@ -340,6 +343,8 @@ func allChecksRaw() []*Check {
 				{Name: "C11.cancel.n1.rnd4", Pkg: "gtree", Entry: "VerifC11Cancel", N: 1, FSModel: true, Sched: "rnd4", Expect: []string{"C11.cancel.returns", "C11.noleak/cancel"}},
 			},
 			Thorough: []Job{
+				gjf("C11.race.ops.n3", "VerifC10", 3, "C10.noleak", "C10.end"),
+				{Name: "C11.race.ops.n2.lifo", Pkg: "gtree", Entry: "VerifC10", N: 2, FSModel: true, Sched: "lifo", Expect: []string{"C10.noleak", "C10.end"}},
 				gjf("C11.fail.n4", "VerifC11Fail", 4, "C11.returns/parse", "C11.returns/validate", "C11.returns/write", "C11.returns/callback", "C11.returns/fs", "C11.returns/reader", "C11.reported/parse", "C11.noleak/parse", "C11.noleak/write", "C11.noleak/fs"),
 				{Name: "C11.fail.n4.lifo", Pkg: "gtree", Entry: "VerifC11Fail", N: 4, FSModel: true, Sched: "lifo", Expect: []string{"C11.returns/parse", "C11.noleak/parse"}},
 				{Name: "C11.fail.n3.lifo-lastsel", Pkg: "gtree", Entry: "VerifC11Fail", N: 3, FSModel: true, Sched: "lifo-lastsel", Expect: []string{"C11.returns/parse", "C11.noleak/parse"}},
